@@ -199,3 +199,10 @@ def positive_items(d):
 
 def union_all(xs):
     return set().union(*(x for x in xs))
+
+
+def drop_evens_live(xs):
+    for x in xs:
+        if x % 2 == 0:
+            xs.remove(x)
+    return xs
